@@ -222,7 +222,14 @@ func c19Run(ecoName string, goroutines int, vtext, rtext, ops []string) (bool, s
 	if after := w.snapshotAll(); after != before {
 		internalStateChanged.Add(1)
 	}
-	// (3) concurrency on the same values
+	// (3) concurrency on shared values. The goroutines work on a FRESH set of values parsed from the same texts, so that
+	// whatever an operation does on first use (lazy initialisation, memoisation) happens under contention too.
+	w2, why2 := buildWorld(ecoName, vtext, rtext)
+	if w2 == nil {
+		return true, "parsing the same pool a second time failed: " + why2
+	}
+	w = w2
+	before = w.snapshotAll()
 	results := make([][]string, goroutines)
 	var wg sync.WaitGroup
 	for g := 0; g < goroutines; g++ {
